@@ -21,6 +21,7 @@ from concurrent.futures import ThreadPoolExecutor
 HERE = os.path.dirname(os.path.abspath(__file__))
 ROOT = os.path.dirname(HERE)
 sys.path.insert(0, HERE)
+import shutil
 import gen_tables  # noqa: E402
 import props  # noqa: E402
 
@@ -227,7 +228,7 @@ def run_harness(pid, seed, tier, replay=None, timeout=1800):
                 lines.append(json.loads(ln))
             except json.JSONDecodeError:
                 pass
-    return rc, lines, err[-2000:]
+    return rc, lines, err[-40000:]
 
 
 # ------------------------------------------------------------------------------- cases in Coq
@@ -393,6 +394,22 @@ def run_bulk(pid, spec, tier):
             case = bulk_case_json(spec.get("kind"), parts[1])
             if case is not None:
                 return keep, None, {"case": {"json": case, "extra": {"bulk_line": ln[:2000]}}, "why": "bulk run (extracted model): " + spec.get("spec_text", "the property fails on the implementation's observation of this input")}
+    # C03: the implementation's observation is "<output fed whole>,<output fed in chunks>"; when the two differ on a MISMATCH
+    # line the implementation itself breaks chunk invariance on that case, whatever the model says
+    if spec.get("kind") == "c03":
+        for ln in lines:
+            parts = ln.split("\t")
+            if parts and parts[0] == "MISMATCH" and len(parts) > 2 and parts[2].startswith("impl=") and not parts[2].startswith("impl=!"):
+                obs = parts[2][5:].split(",")
+                if len(obs) == 2 and obs[0] != obs[1]:
+                    try:
+                        whole, chunked = bytes.fromhex(obs[0]), bytes.fromhex(obs[1])
+                    except ValueError:
+                        continue
+                    case = bulk_case_json("c03", parts[1])
+                    case["impl_output_whole"] = whole.decode("utf-8", "replace")
+                    case["impl_output_chunked"] = chunked.decode("utf-8", "replace")
+                    return keep, None, {"case": {"json": case, "extra": {"bulk_line": ln[:2000]}}, "why": "bulk run: the implementation's output for the body fed whole differs from its output for the same body fed in these chunks (chunk invariance)"}
     detail = "; ".join(l[:400] for l in lines[:3]) or (job_errors[-600:])
     return keep, {"kind": "correspondence", "what": "bulk run: extracted model and implementation disagree", "detail": detail, "count": summ.get("mismatches")}, None
 
@@ -458,6 +475,19 @@ def main():
             gen_ok = False
             problems.append({"kind": "translator", "what": f"gen_tables section {sec}", "detail": gen_res[sec]})
 
+    # the tables of the last run in which every translator section succeeded are kept (build/gen_good): when a section fails
+    # now, the SEARCH for a failing input (never the proofs) may still run the model with them
+    gen_dir = os.path.join(COQ, "gen")
+    good_dir = os.path.join(ROOT, "build", "gen_good")
+    if all(not v for v in gen_res.values()):
+        os.makedirs(good_dir, exist_ok=True)
+        for fn in os.listdir(gen_dir):
+            if fn.startswith("Ext") and fn.endswith(".v"):
+                txt = open(os.path.join(gen_dir, fn), encoding="utf-8").read()
+                dst = os.path.join(good_dir, fn)
+                if not os.path.exists(dst) or open(dst, encoding="utf-8").read() != txt:
+                    open(dst, "w", encoding="utf-8").write(txt)
+
     # 2. proofs
     prop_mods = [pid] + list(cfg.get("extra_props", []))      # further statement files of the same property
     names = []
@@ -496,6 +526,17 @@ def main():
             items = [{"file": f"properties/{pid}.v", "line": 0, "statement": None, "message": mk_out[-600:]}]
         for it in items:
             problems.append({"kind": "proof", "what": f"{it['file']}:{it['line']} {it['statement'] or ''}".strip(), "detail": it["message"]})
+    # a failed translator section: the proofs above are reported as they are; for the search only, put the last good tables back
+    stale_tables = []
+    if not all(not v for v in gen_res.values()):
+        failed = [k for k, v in gen_res.items() if v]
+        if all(os.path.exists(os.path.join(good_dir, f"Ext{k}.v")) for k in failed):
+            for k in failed:
+                shutil.copyfile(os.path.join(good_dir, f"Ext{k}.v"), os.path.join(gen_dir, f"Ext{k}.v"))
+                stale_tables.append(k)
+            make_targets(run_targets)
+            if not gen_ok:
+                notes.append("search for a failing input run with the tables of the last run in which the translator succeeded: " + ", ".join(stale_tables))
     # can the model / reference still be evaluated?
     run_ok = all(os.path.exists(os.path.join(COQ, t)) and os.path.getmtime(os.path.join(COQ, t)) >= os.path.getmtime(os.path.join(COQ, t[:-1])) for t in run_targets)
     gen_vo_ok = True
@@ -506,7 +547,7 @@ def main():
             rcg, _ = make_targets([os.path.relpath(gv, COQ)])
             if rcg != 0:
                 gen_vo_ok = False
-    mode = "full" if (gen_ok and gen_vo_ok) else "spec"
+    mode = "full" if ((gen_ok or stale_tables) and gen_vo_ok) else "spec"
     if not run_ok:
         problems.append({"kind": "model-build", "what": ",".join(run_targets), "detail": mk_out[-800:]})
 
@@ -540,6 +581,14 @@ def main():
         rc, gen_cases, herr = run_harness(pid, seed, tier, replay=replay)
         if rc != 0:
             problems.append({"kind": "harness-run", "what": f"rio-harness {pid} exited {rc}", "detail": herr})
+            # the harness names the input it was running when the process was killed (invalid free, stack overflow, abort)
+            mcr = re.search(r"CRASHED-ON (\w+) (\{.*\}|\[.*\])\s*$", herr, re.M)
+            if mcr:
+                try:
+                    violations.append({"case": {"json": json.loads(mcr.group(2)), "extra": {"signal": mcr.group(1)}},
+                                       "why": f"the process running the crate was killed by {mcr.group(1)} on this input (memory fault, stack overflow or abort inside the library or at the release of something it handed out)"})
+                except json.JSONDecodeError:
+                    pass
         cases = corpus_cases + gen_cases
 
     # 4. evaluate in Coq
@@ -669,7 +718,7 @@ def main():
         rp = os.path.join(ROOT, "replays", pid, f"seed{seed}-{int(time.time())}-unproved.json")
         json.dump({"property": pid, "no_failing_input_found": True,
                    "no_longer_checks": problems,
-                   "searched": {"cases": len(cases), "evaluated_in_coq": evaluated, "mode": mode},
+                   "searched": {"cases": len(cases), "evaluated_in_coq": evaluated, "mode": mode + (" (tables of the last good translator run: " + ",".join(stale_tables) + ")" if stale_tables else "")},
                    "replay_cmd": f"python3 tools/check.py {pid}"}, open(rp, "w"), indent=1, ensure_ascii=False)
         for p in problems[:5]:
             log(f"  broken: {p['kind']}: {p['what']}: {str(p['detail'])[:300]}")
